@@ -418,6 +418,9 @@ pub struct CmpOpts {
     pub dir_mtime: bool,
     /// Compare ctime and inode (for "untouched" checks).
     pub identity: bool,
+    /// Compare modification times at all (off when comparing two restores of a damaged
+    /// version: a file whose restore fails keeps the time of its creation).
+    pub mtime: bool,
 }
 
 impl CmpOpts {
@@ -426,6 +429,7 @@ impl CmpOpts {
             root_meta: true,
             dir_mtime: true,
             identity: false,
+            mtime: true,
         }
     }
     pub fn untouched() -> CmpOpts {
@@ -433,6 +437,7 @@ impl CmpOpts {
             root_meta: true,
             dir_mtime: true,
             identity: true,
+            mtime: true,
         }
     }
 }
@@ -471,7 +476,7 @@ pub fn first_diff(want: &Snapshot, got: &Snapshot, o: CmpOpts) -> Option<(String
         if w.kind != 'l' && w.mode != g.mode {
             return Some(("mode".into(), format!("{p}: mode {:o} != expected {:o}", g.mode, w.mode)));
         }
-        if (w.kind != 'd' || o.dir_mtime) && w.mtime != g.mtime {
+        if o.mtime && (w.kind != 'd' || o.dir_mtime) && w.mtime != g.mtime {
             return Some((
                 "mtime".into(),
                 format!("{p}: mtime {:?} != expected {:?}", g.mtime, w.mtime),
@@ -503,6 +508,12 @@ pub fn first_diff(want: &Snapshot, got: &Snapshot, o: CmpOpts) -> Option<(String
 
 // ---------------------------------------------------------------------------
 // Generators
+
+/// Names that mean something to conserve or to filesystems; legal in a source tree.
+pub const SPECIAL_NAMES: &[&str] = &[
+    "lost+found", "CONSERVE", "GC_LOCK", "BANDHEAD", "BANDTAIL", "d", "i", "b0000", "b0001", ".DS_Store",
+    "00000", "000000000", "CACHEDIR.TAG.bak", "con", "nul",
+];
 
 pub const NAMES: &[&str] = &[
     "a", "b", "ab", "a.b", "a b", "a-", "a!", "a+", "a0", "a~", "A", "z", "é", "éa", "日", "日本",
@@ -536,6 +547,7 @@ pub fn name_strategy() -> BoxedStrategy<String> {
         6 => prop::sample::select(NAMES).prop_map(|s| s.to_string()),
         2 => "[a-z0-9 .!#+~_-]{1,6}".prop_map(|s| if s == "." || s == ".." { format!("_{s}") } else { s }),
         1 => "[a-cé日]{1,3}",
+        1 => prop::sample::select(SPECIAL_NAMES).prop_map(|s| s.to_string()),
     ]
     .boxed()
 }
@@ -607,6 +619,8 @@ pub fn mtime_strategy(cfg: TreeCfg) -> BoxedStrategy<(i64, u32)> {
         4 => 1_500_000_000i64..1_800_000_000i64,
         1 => (1i64 << 32)..(1i64 << 33),
         1 => 1i64..1000i64,
+        // beyond what fits in 64-bit nanoseconds (years < 1678 and > 2262), up to year ~9000
+        1 => prop_oneof![(1i64 << 33)..220_000_000_000i64, (-30_000_000_000i64)..(-(1i64 << 31)), Just(9_223_372_037i64), Just(-9_223_372_037i64)],
     ];
     let nanos = prop_oneof![
         3 => Just(0u32),
